@@ -597,8 +597,20 @@ func (a *A) ruleLatePolicy(W *types.Named, add *ssa.Function) {
 	// (b) drop calls
 	drop := a.methodOf(W, "dropLastRow")
 	if drop != nil {
+		// path form: with a usable timestamp that is not late (IsEventTimeLate false), is the drop reachable?
+		onlyLate := func(f *ssa.Function, target ssa.Instruction) bool {
+			return !reachUnder(f, target, func(v ssa.Value) Tri {
+				if v == tsOk {
+					return T
+				}
+				if c, ok := v.(*ssa.Call); ok && c.Call.StaticCallee() != nil && isLate(c.Call.StaticCallee()) {
+					return F
+				}
+				return U
+			})
+		}
 		for _, c := range callsTo(add, drop) {
-			a.Check(guardedByCall(c.Block(), isLate, true) || guardedByValue(c.Block(), isTsOk, false), fname(add)+"#drop-only-late", c.Pos(),
+			a.Check(guardedByCall(c.Block(), isLate, true) || guardedByValue(c.Block(), isTsOk, false) || onlyLate(add, c), fname(add)+"#drop-only-late", c.Pos(),
 				"dropLastRow() is reached only after IsEventTimeLate(ts) returned true",
 				"dropLastRow() can be reached for a row that is not late: an on-time row would be discarded")
 		}
@@ -609,7 +621,7 @@ func (a *A) ruleLatePolicy(W *types.Named, add *ssa.Function) {
 			if h == nil || h == drop || h.Blocks == nil || h.Signature.Recv() == nil || !types.Identical(derefT(h.Signature.Recv().Type()), W) {
 				return
 			}
-			callGuarded := guardedByCall(in.Block(), isLate, true) || guardedByValue(in.Block(), isTsOk, false) || a.guardedByLateFlag(in.Block(), isLate)
+			callGuarded := guardedByCall(in.Block(), isLate, true) || guardedByValue(in.Block(), isTsOk, false) || a.guardedByLateFlag(in.Block(), isLate) || onlyLate(add, in)
 			for _, c := range callsTo(h, drop) {
 				a.Check(callGuarded || guardedByCall(c.Block(), isLate, true), fname(add)+"#drop-only-late", c.Pos(),
 					"dropLastRow() (in "+h.Name()+", called from Add) is reached only after IsEventTimeLate(ts) returned true",
